@@ -1,63 +1,93 @@
-"""Probes for the panic audit: functions appended to a scratch copy of the repository; every index site listed must stay\nOPEN (each is unsafe: a test whose subject is modified before the use).  Run: python3 tests/audit_soundness_probes.py"""
-import sys, subprocess, shutil
-sys.path.insert(0,'/verif'); sys.setrecursionlimit(10000)
-from rules.lib import mutants, facts as FM, panics as P
-tree = mutants.scratch_copy(FM.repo_root())
-add = '''
+"""Probes for the panic audit: functions appended to a scratch copy of the repository.  Every site of an `unsafe_*`
+function must stay OPEN (a test whose subject is modified before the use proves nothing), every site of a `safe_*`
+function must be discharged (the prover has not been made useless).  Run: python3 tests/audit_soundness_probes.py
+(also run by `./check C08 --tier thorough`, reported as a note)."""
+import os, shutil, sys
+sys.path.insert(0, os.path.dirname(os.path.dirname(os.path.abspath(__file__))))
+sys.setrecursionlimit(10000)
+
+PROBES = '''
 pub struct ZzS { sp: usize, stack: Vec<u8> }
 impl ZzS {
-    pub fn zz_t4(&mut self) -> u8 {
-        if self.sp < self.stack.len() {
-            self.sp += 5;
-            return self.stack[self.sp];
-        }
+    pub fn zz_unsafe_field(&mut self) -> u8 {
+        if self.sp < self.stack.len() { self.sp += 5; return self.stack[self.sp]; }
         0
     }
-    pub fn zz_t7(&mut self) -> u8 {
-        if self.sp < self.stack.len() {
-            self.bump();
-            return self.stack[self.sp];
-        }
+    pub fn zz_unsafe_field_via_helper(&mut self) -> u8 {
+        if self.sp < self.stack.len() { self.zz_bump(); return self.stack[self.sp]; }
         0
     }
-    fn bump(&mut self) { self.sp += 3; }
-    pub fn zz_t8(&mut self) -> u8 {
-        if self.sp < self.stack.len() {
-            self.stack.pop();
-            return self.stack[self.sp];
-        }
+    fn zz_bump(&mut self) { self.sp += 3; }
+    pub fn zz_unsafe_container_shrunk(&mut self) -> u8 {
+        if self.sp < self.stack.len() { self.stack.pop(); return self.stack[self.sp]; }
+        0
+    }
+    pub fn zz_safe_field(&mut self) -> u8 {
+        if self.sp < self.stack.len() { return self.stack[self.sp]; }
         0
     }
 }
-pub fn zz_t5(v: &Vec<u8>, n: usize) -> u8 {
+pub fn zz_unsafe_local(v: &Vec<u8>, mut i: usize) -> u8 {
+    if i < v.len() { i += 5; return v[i]; }
+    0
+}
+pub fn zz_unsafe_after_dec(v: &Vec<u8>, mut i: usize) -> u8 {
+    if i > 0 { i -= 1; return v[i]; }
+    0
+}
+pub fn zz_unsafe_unbounded_range(v: &Vec<u8>, n: usize) -> u8 {
     let mut s = 0u8;
-    for i in 0..n {
-        s = s.wrapping_add(v[i]);
-    }
+    for i in 0..n { s = s.wrapping_add(v[i]); }
     s
 }
-pub fn zz_t6(v: &mut Vec<u8>, i: usize) -> u8 {
-    if i < v.len() {
-        v.pop();
-        return v[i];
-    }
+pub fn zz_unsafe_popped(v: &mut Vec<u8>, i: usize) -> u8 {
+    if i < v.len() { v.pop(); return v[i]; }
     0
 }
-pub fn zz_t9(v: &mut Vec<u8>) -> u8 {
+pub fn zz_unsafe_named_len(v: &mut Vec<u8>) -> u8 {
     let n = v.len();
-    if n > 0 {
-        v.clear();
-        return v[n - 1];
-    }
+    if n > 0 { v.clear(); return v[n - 1]; }
     0
+}
+pub fn zz_safe_guard(v: &Vec<u8>, i: usize) -> u8 {
+    if i < v.len() { return v[i]; }
+    0
+}
+pub fn zz_safe_enumerate(v: &Vec<u8>, w: &mut [u8; 4]) {
+    if v.len() != 4 { return; }
+    for (i, x) in v.iter().enumerate() { w[i] = *x; }
 }
 '''
-open(tree+"/src/builtins/print.rs","a").write(add)
-F = FM.load("default", repo=tree)
-shutil.rmtree(tree, ignore_errors=True)
-A=P.Audit(F)
-for p_ in sorted(F.fns):
-    if "zz_t" in p_ or "Zz" in p_:
-        for s in A.sites_of(p_):
+
+
+def run_probes():
+    """[(function, site, expected, verdict)]"""
+    from rules.lib import mutants, facts as FM, panics as P
+    tree = mutants.scratch_copy(FM.repo_root())
+    try:
+        with open(os.path.join(tree, "src/builtins/print.rs"), "a") as fh:
+            fh.write(PROBES)
+        F = FM.load("default", repo=tree)
+    finally:
+        shutil.rmtree(tree, ignore_errors=True)
+    A = P.Audit(F)
+    out = []
+    for p in sorted(F.fns):
+        nm = p.rsplit("::", 1)[-1]
+        if not nm.startswith(("zz_unsafe", "zz_safe")):
+            continue
+        for s in A.sites_of(p):
+            if not ("index" in s.key or "Bounds" in s.key):
+                continue
             A.discharge(s)
-            if s.cls in ("index",) or "Bounds" in s.key or "index" in s.key: print(s.key, s.verdict, s.reason[:110])
+            out.append((nm, s.key.split(" | ", 1)[1], "open" if nm.startswith("zz_unsafe") else "discharged", s.verdict))
+    return out
+
+
+if __name__ == "__main__":
+    bad = 0
+    for nm, site, want, got in run_probes():
+        ok = (got == "open") == (want == "open")
+        bad += not ok
+        print("%-34s %-28s want %-10s got %-10s %s" % (nm, site, want, got, "" if ok else "<== UNEXPECTED"))
+    sys.exit(1 if bad else 0)
